@@ -70,12 +70,12 @@ CHECKS = {
 
 # dimensions added after the seeded-change waves (DESIGN.md section 6d), appended to the texts above
 EXTRA = {
- "C01": " Also: long sessions (30-160 race scenarios on one connection), greeting versions, vectored/stalled writes, events handle dropped; every 4th case under an everything-enabled tracing subscriber (all properties); fz_sim libFuzzer campaign in the thorough tier.",
+ "C01": " Also: an unrelated second connection on the same thread, wall-clock time passing during Advance steps (thorough: 5.3 s), io::ErrorKind of injected errors varied; long sessions (30-160 race scenarios on one connection), greeting versions, vectored/stalled writes, events handle dropped; every 4th case under an everything-enabled tracing subscriber (all properties); fz_sim libFuzzer campaign in the thorough tier.",
  "C02": " Also: one line of 2^k+d bytes (4 KiB-4 MiB) with read boundaries next to its end; payloads tiled from protocol look-alikes.",
- "C03": " Also: responses of 65 535-1 000 000 lines in one piece; key families sharing first/last byte and length.",
+ "C03": " Also: receives interrupted/cancelled and resumed while a second connection on the same thread does the same; responses of 65 535-1 000 000 lines in one piece; key families sharing first/last byte and length.",
  "C04": " Also: long sessions with recurring key-rich replies, events receiver not polled (up to 10 000 pending), mixed-width unknown subsystem names; fz_sim campaign in the thorough tier.",
- "C05": " Also: write stalls, long sessions, and (beyond the stated quantifier, declared as such) client-side faults incl. a transient Interrupted write; fz_sim campaign in the thorough tier.",
- "C08": " Also: E8 (a caller told that the connection failed => client reports closed), giant replies (1.25-80 MiB line), events handle held but unpolled with up to 2100 pending notifications; fz_sim campaign in the thorough tier.",
+ "C05": " Also: sessions opened with the password handshake, wall-clock time, write stalls, long sessions, and (beyond the stated quantifier, declared as such) client-side faults incl. a transient Interrupted write; fz_sim campaign in the thorough tier.",
+ "C08": " Also: 8 io::ErrorKinds for injected errors, writes that return Ok(0), E8 (a caller told that the connection failed => client reports closed), giant replies (1.25-80 MiB line), events handle held but unpolled with up to 2100 pending notifications; fz_sim campaign in the thorough tier.",
  "C06": " Also: DEL as a twelfth character class, strings dense in escapable characters with lengths 2^k+-1, odd strings (\"/\", \".\", \"+0\", ...); every third case on a connection that has already sent other commands; fz_cmd campaign (16 processes) in the thorough tier.",
  "C07": " Also: arguments of 2^k+d letters up to 4 MiB (cumulative line lengths past 1, 2, 4, 8 MiB) ending in LF/NUL; hashes compared under three hashers.",
  "C11": " Also: stacks of 2^k+-1 negations up to 1025; known tag names in any letter case fold to the canonical tag on both sides.",
@@ -85,9 +85,10 @@ EXTRA = {
  "C19": " Also: nth/nth_back steps and whole-iterator adaptors (last, count, fold, rfold, skip, step_by, rev) on all four iterator types; frames obtained on connections with a history.",
  "C20": " Also: hash law under three hashers (SipHash, word-wise, call-sensitive); 3.2*10^8 (thorough 4*10^9) pseudo-random unknown names of known-name lengths must map to the catch-all.",
  "C10": " Also: receives interrupted by a transient WouldBlock / dropped while pending and called again; responses of 70 000-1 000 000 lines cut at and around their boundaries.",
- "C14": " Each case additionally varies the connection's history (key cache, buffer growth) and the parameters of the decoding command object.",
- "C16": " Each case additionally varies the connection's history; sticker/channel names and values include multi-byte characters.",
- "C17": " Also: greeting versions, chunk lengths varying mid-transfer, errors on continuation requests, up to 1100 chunks.",
+ "C12": " Also: every decoded value and error is formatted with {:?} and {:#?}; frames obtained on connections with a history.",
+ "C14": " Attribute names with the case of one letter flipped occur as tag names. Each case additionally varies the connection's history (key cache, buffer growth) and the parameters of the decoding command object.",
+ "C16": " Grouping tags are also passed as Tag::Other(<canonical name>). Each case additionally varies the connection's history; sticker/channel names and values include multi-byte characters.",
+ "C17": " Also: transfers of 66 000 (thorough 300 000) requests, earlier callers that gave up mid-transfer, greeting versions, chunk lengths varying mid-transfer, errors on continuation requests, up to 1100 chunks.",
 }
 
 BUILT = sys.argv[1].split(",") if len(sys.argv) > 1 else []
@@ -96,6 +97,7 @@ checks = []
 na = []
 for pid, (level, tech, text, note, engine) in CHECKS.items():
     if pid in BUILT:
+        text = text + EXTRA.get(pid, "") + " Every check also runs under a second build profile (release-plain: no debug assertions, wrapping arithmetic) before the main run; its coverage is embedded in the evidence."
         checks.append({
             "property_id": pid,
             "quick_cmd": f"./check {pid} quick",
@@ -103,7 +105,7 @@ for pid, (level, tech, text, note, engine) in CHECKS.items():
             "evidence_file": f"/verif/evidence/{pid}.json",
             "replay_cmd_template": f"./check {pid} quick --replay {{path}}",
             "engine": engine,
-            "level_claimed": {"category": level, "text": text + EXTRA.get(pid, ""), "design_ref": f"DESIGN.md section 4, {pid}"},
+            "level_claimed": {"category": level, "text": text, "design_ref": f"DESIGN.md section 4, {pid}"},
             "level_note": note,
             "technique": tech,
         })
